@@ -373,7 +373,12 @@ func (c *cTx) Clone() Context {
 // be closed once no longer needed. This functionality is particularly beneficial for middlewares that need to wrap
 // their custom [ResponseWriter] while preserving the state of the original [Context].
 func (c *cTx) CloneWith(w ResponseWriter, r *http.Request) ContextCloser {
-	cp := c.tree.ctx.Get().(*cTx)
+	tree := c.tree
+	if tree == nil {
+		// A context made by Clone belongs to no tree: the copy is drawn from the current one.
+		tree = c.fox.getRoot()
+	}
+	cp := tree.ctx.Get().(*cTx)
 	cp.req = r
 	cp.w = w
 	cp.route = c.route
